@@ -160,6 +160,10 @@ where
     }
     let shapes: Vec<K> = build_all(&c.geoms, c.ctor);
     let written = views(&shapes);
+    // "identical part / ring / patch structure" must hold whichever accessor looks at the value
+    if let Err(m) = accessors_agree(&shapes) {
+        fail!("accessors-disagree", "constructed value: {}", m);
+    }
     let expect: Vec<Geom> = written.iter().map(expected_after_read).collect();
     let n = expect.len();
     let cap = n + 4;
@@ -200,7 +204,12 @@ where
         };
         cmp_seq(&format!("mem/{}/read", tag), &expect, &got)?;
         let got = match open("read_as")?.read_as::<K>() {
-            Ok(v) => views(&v),
+            Ok(v) => {
+                if let Err(m) = accessors_agree(&v) {
+                    fail!("accessors-disagree", "mem/{}/read_as: {}", tag, m);
+                }
+                views(&v)
+            }
             Err(e) => fail!("read-error", "mem/{}/read_as: {}", tag, err_str(&e)),
         };
         cmp_seq(&format!("mem/{}/read_as", tag), &expect, &got)?;
